@@ -1143,6 +1143,85 @@ func pairCheck(r *ev.Run, names []string, which string, rs *toolbox3d.RectSet, b
 
 // ---------------------------------------------------------------- main
 
+// rectsetNear: box sets over coordinates that are one rounding step apart (0.1+0.2 beside 0.3, 0.1+0.7 beside 0.8 -
+// what summed lengths give). Every history of up to three Add/Remove of the boxes [a,b] x [0,1]^2 over those
+// coordinates; the set's solid against the fold of the operations, at points well inside the gaps between the
+// coordinates (no probe in the one-step slivers, none on a face).
+func rectsetNear(r *ev.Run, depth int) {
+	// (summed at run time: the compiler adds constants exactly, and then 0.1+0.2 is 0.3)
+	tenth, fifth, seven := 0.1, 0.2, 0.7
+	xs := []float64{0, 0.1, 0.3, tenth + fifth, 0.5, 0.8, tenth + seven}
+	if xs[2] == xs[3] || xs[5] == xs[6] {
+		ev.Fatal("rectset-near: the summed coordinates are not one step away from the literals")
+	}
+	type bx struct{ a, b float64 }
+	var boxes []bx
+	for _, a := range xs {
+		for _, b := range xs {
+			if b-a > 1e-3 {
+				boxes = append(boxes, bx{a, b})
+			}
+		}
+	}
+	sorted := append([]float64{}, xs...)
+	sort.Float64s(sorted)
+	var probes []float64
+	for i := 0; i+1 < len(sorted); i++ {
+		if sorted[i+1]-sorted[i] > 1e-3 {
+			probes = append(probes, (sorted[i]+sorted[i+1])/2)
+		}
+	}
+	probes = append(probes, -0.05, 0.85)
+	nOps := 2 * len(boxes)
+	var hists [][]int
+	lists(nOps, depth, func(l []int) { hists = append(hists, append([]int{}, l...)) })
+	var nt int64
+	ev.Parallel(len(hists), 0, func(hi int) {
+		h := hists[hi]
+		r.Eval(1)
+		rs := toolbox3d.NewRectSet()
+		names := make([]string, len(h))
+		inside := make([]bool, len(probes))
+		if p := ev.Try(func() {
+			for i, o := range h {
+				b := boxes[o/2]
+				rect := model3d.NewRect(model3d.XYZ(b.a, 0, 0), model3d.XYZ(b.b, 1, 1))
+				if o%2 == 0 {
+					names[i] = fmt.Sprintf("Add([%v,%v])", b.a, b.b)
+					rs.Add(rect)
+				} else {
+					names[i] = fmt.Sprintf("Remove([%v,%v])", b.a, b.b)
+					rs.Remove(rect)
+				}
+				for pi, x := range probes {
+					if x > b.a && x < b.b {
+						inside[pi] = o%2 == 0
+					}
+				}
+			}
+		}); p != "" {
+			r.Violation("rectset-near/panic", fmt.Sprintf("%v: %s", names, p), scase{Kind: "rectset-near", Hist: names})
+			return
+		}
+		sol := rs.Solid()
+		some := false
+		for pi, x := range probes {
+			some = some || inside[pi]
+			for _, yz := range [][2]float64{{0.5, 0.5}, {0.01, 0.99}} {
+				if got := sol.Contains(model3d.XYZ(x, yz[0], yz[1])); got != inside[pi] {
+					r.Violation("rectset-near/contains", fmt.Sprintf("%v: the box set's solid says %v at x=%v, the operations in turn give %v", names, got, x, inside[pi]), scase{Kind: "rectset-near", Hist: names, Point: []float64{x, yz[0], yz[1]}})
+					return
+				}
+			}
+		}
+		if some {
+			atomic.AddInt64(&nt, 1)
+		}
+	})
+	r.NontrivialAdd(int(nt))
+	r.Set("rectset_near_histories", len(hists))
+}
+
 func main() {
 	r := ev.Start("C04", "model_checking")
 	r.Rule("distinct_nontrivial = operand lists with at least two distinct operands on which union and intersection differ somewhere, expression trees with a non-empty result, smooth joins that add at least one point to the union, stack lists of length > 1, and distinct RectSet occupancies reached")
@@ -1169,6 +1248,11 @@ func main() {
 		pairDepth = 5
 	}
 	r.Isolate("rectset-pairs", func() { rectsetPairs(r, pairDepth) })
+	nearDepth := 2
+	if r.Thorough() {
+		nearDepth = 3
+	}
+	r.Isolate("rectset-near", func() { rectsetNear(r, nearDepth) })
 	r.Sample(scase{Kind: "algebra3", Ops: []int{0, 4, 6}, Point: []float64{0.25, 0, 0}})
 	r.Sample(scase{Kind: "smooth/SmoothJoin", Ops: []int{2, 0, 3}, Radius: 0.5, Point: []float64{0.2137, -0.2071, 0.2093}})
 	r.Sample(scase{Kind: "rectset", Hist: []string{"Add(box0)", "Remove(box3)", "AddRectSet(set1)"}})
@@ -1189,6 +1273,8 @@ func replay(r *ev.Run, c scase) {
 		smooth2(r, len(c.Ops))
 	case strings.HasPrefix(c.Kind, "smooth"):
 		smooth3(r, len(c.Ops))
+	case c.Kind == "rectset-near":
+		rectsetNear(r, len(c.Hist))
 	case c.Kind == "rectset-pair":
 		rectsetPairs(r, len(c.Hist))
 	case c.Kind == "rectset":
